@@ -200,7 +200,7 @@ class Ctx:
                     continue
                 if isinstance(v, int):
                     cov[k] = cov.get(k, 0) + v
-            for s in c.get('samples', [])[:4]:
+            for s in (c.get('samples') or [])[:4]:
                 samples.append({'part': name, 'case': s})
             if c.get('rule'):
                 rules.append('[%s] %s' % (name, c['rule']))
@@ -653,7 +653,7 @@ class McPart(Part):
             c = ev['coverage']
             for k in merged:
                 merged[k] += int(c.get(k, 0))
-            samples += c.get('samples', [])[:1]
+            samples += (c.get('samples') or [])[:1]
             notes += c.get('notes', [])
             rules.append(c.get('rule', ''))
             if c.get('exhaustive') is False:
